@@ -15,5 +15,6 @@ assert os.path.abspath(kernpy.__file__).startswith(src + os.sep), (kernpy.__file
 assert hasattr(sys, 'monitoring')
 print('setup: python', sys.version.split()[0], 'kernpy at', kernpy.__file__)
 PY
+/venv/bin/python selftest/simfs_vs_real.py 120
 /venv/bin/python selftest/determinism.py --smoke
 echo "setup: ok"
